@@ -543,7 +543,7 @@ func (r *run) stepReport(op *Op) {
 	if got := r.snapshotLoops(); got != loops0+1 {
 		tag := "C08"
 		if cancelledCaller {
-			tag = "C07"
+			tag = "C07,C08"
 		}
 		r.viol(tag, "after handling a report the monitor did not return to its loop (loop count %d, want %d): it is blocked, e.g. on answering a caller that went away", got, loops0+1)
 		return
